@@ -127,7 +127,7 @@ func (s *scripted) Clean(oldval []byte) ([]byte, error) {
 
 func absVal(b []byte) int {
 	if len(b) == 0 {
-		return 0
+		return -2 // an entry with an empty value: never what a strategy leaves (an empty merge result means "no entry")
 	}
 	switch b[0] {
 	case 's':
